@@ -4,15 +4,48 @@
    PARTIAL.  In the model every failure is a value  Err reason path  with reason drawn from the
    enumeration ereason (Base.v), so "typed, with a non-nil Reason" holds by construction and
    the translator harness/consts.go ties the enumeration to the Err* variables of error.go.
-   Proved: a missing setting is reported with the full requested path (getters), at the
-   field where the walk stopped; a failed conversion keeps the reason of the conversion; a
-   list of the wrong length for a fixed-size array is EArraySizeMismatch.  NOT in the model:
-   the text of the message and the path and source inside it for Unpack failures (Reify.v
-   carries no paths).  That part is decided on the implementation by the correspondence run:
-   one fault is injected at every setting of valid (configuration, type) pairs and the
-   returned error must be a ucfg.Error whose message contains the dotted path of exactly
-   that setting and the source it was loaded from. *)
+   The Unpack model builds the path bottom-up: the site of a failure raises with the empty
+   path and every enclosing list entry, map entry and struct field puts its (stored) name in
+   front.  Proved: a conversion that fails at a struct field is reported under exactly the path
+   of the setting it was read from; enclosing levels compose by putting their names in front;
+   a missing setting is reported with the full requested path (getters), at the field where
+   the walk stopped; a failed conversion keeps the reason of the conversion; a list of the wrong
+   length for a fixed-size array is ErrArraySizeMismatch.  NOT in the model: the text of the
+   message and the source inside it.  Decided on the implementation by the correspondence run:
+   one fault is injected at every setting of valid (configuration, type) pairs; the returned
+   error must be a ucfg.Error whose Path() equals the model's path and the path of exactly that
+   setting, and whose message contains that path and the source it was loaded from. *)
 From Ucfg Require Import Base ParseInt Consts Field Tree PathOps Merge OTree F64 Conv Reify ProofsReify.
+
+Theorem c14_struct_field_error_names_setting_partial :
+  forall f2 o cfg goname ctag vtagtext k fr x vr vts pth v r p0,
+  negb (is_upper_first goname) || tag_ignore ctag = false ->
+  parse_vtags vtagtext = Some vts -> tag_squash ctag = false ->
+  get_path "" (opts_path (r_p o) (if String.eqb (tag_name ctag) "" then lower_ascii_str goname else tag_name ctag)) cfg
+    = Ok (Some (pth, v)) ->
+  is_nil (Some v) = false ->
+  conv (r_ft o) (vo_dur (r_vo o)) k v = Err r p0 ->
+  struct_loop (S (S f2)) o cfg ((goname, ctag, vtagtext, TPrim k) :: fr) (x :: vr)
+  = in_seg pth (Err r p0).
+Proof. exact struct_field_error_names_setting. Qed.
+Print Assumptions c14_struct_field_error_names_setting_partial.
+
+Theorem c14_enclosing_names_compose_partial : forall A s1 s2 (r : res A), s1 <> "" -> s2 <> "" ->
+  in_seg s1 (in_seg s2 r) = in_seg (s1 +++ "." +++ s2) r.
+Proof. exact @in_seg_compose. Qed.
+Print Assumptions c14_enclosing_names_compose_partial.
+
+(* a negative port in the second entry of a list of structs with a dotted tag *)
+Theorem c14_error_path_example :
+  let o := {| r_p := {| p_sep := "."; p_maxIdx := 1024; p_numKeys := false; p_escape := false |}; r_h := 0%N;
+              r_vo := {| vo_dur := fun _ => None |}; r_ft := [] |} in
+  let t := TStruct [("Srv", "srv", "", TSlice (TStruct [("Port", "net.port", "", TPrim (KUint 16))]))] in
+  unpack o (TPtr t) (GPtr (zero t))
+    (VSub [("srv", ("srv", VSub [] (Some [("0", VSub [("net", ("net", VSub [("port", ("port", VUint 80))] None))] None);
+                                           ("1", VSub [("net", ("net", VSub [("port", ("port", VInt (-1)))] None))] None)])))] None)
+  = Err ENegative "srv.1.net.port".
+Proof. exact error_path_example. Qed.
+Print Assumptions c14_error_path_example.
 
 Theorem c14_missing_setting_names_full_path_partial : forall o rp name idx root,
   get_path rp (opts_path_idx o name idx) root = Ok None ->
